@@ -507,6 +507,68 @@ theorem overrides_on_context (ctx : PCtx) (m : List (Bytes × Bytes)) :
       | some f => some (mappedChecker f m)) ∧ (ctx.withOverrides m).path = ctx.path := by
   cases h : ctx.chk <;> simp [PCtx.withOverrides, withFieldOverrides, h]
 
+/-! ### composition of override tables
+
+Every `WithFieldOverrides` call stacks another `MappedFieldChecker` on the checker of that moment,
+so after the tables `m₁, m₂, …, mₖ` (in call order) a storage field is checked under the name
+`m₁(m₂(… mₖ(field)))`: the LATEST table renames first.  (A child store maps its names, hands the
+context on, the parent store maps its own: `[{a→b}, {c→a}]` checks `c` under `b`.) -/
+
+/-- one table as a renaming: the override if there is one, else the name itself -/
+def rename (m : List (Bytes × Bytes)) (x : Bytes) : Bytes := (look m x).getD x
+
+/-- the name a storage field is checked under after the tables `ms` were applied in order -/
+def effectiveName (ms : List (List (Bytes × Bytes))) (field : Bytes) : Bytes := ms.foldr rename field
+
+/-- **overrides compose**: after any sequence of `WithFieldOverrides` calls the checker selects a
+    field iff the original checker selects its effective name — the composition of the tables. -/
+theorem overrides_compose (ms : List (List (Bytes × Bytes))) (f : Bytes → Bool) :
+    ∃ g, ms.foldl withFieldOverrides (some f) = some g ∧ ∀ field, g field = f (effectiveName ms field) := by
+  induction ms generalizing f with
+  | nil => exact ⟨f, rfl, fun _ => rfl⟩
+  | cons m r ih =>
+    obtain ⟨g, hg, hsel⟩ := ih (mappedChecker f m)
+    refine ⟨g, by simpa [List.foldl, withFieldOverrides] using hg, ?_⟩
+    intro field
+    rw [hsel field, mapped_checker_selects]
+    rfl
+
+/-- a nil checker stays nil whatever is applied ("write every field") -/
+theorem overrides_keep_nil (ms : List (List (Bytes × Bytes))) : ms.foldl withFieldOverrides none = none := by
+  induction ms with
+  | nil => rfl
+  | cons m r ih => simpa [List.foldl, withFieldOverrides] using ih
+
+/-- the same on a context (a block's tables, `applyOvr`): bucket and parent untouched -/
+theorem overrides_compose_on_context (ms : List (List (Bytes × Bytes))) (ctx : PCtx) :
+    (applyOvr ctx ms).chk = ms.foldl withFieldOverrides ctx.chk ∧ (applyOvr ctx ms).path = ctx.path ∧
+      (applyOvr ctx ms).parentPath = ctx.parentPath := by
+  induction ms generalizing ctx with
+  | nil => exact ⟨rfl, rfl, rfl⟩
+  | cons m r ih =>
+    obtain ⟨h1, h2, h3⟩ := ih (ctx.withOverrides m)
+    exact ⟨by simpa [applyOvr, PCtx.withOverrides, List.foldl] using h1, by simpa [applyOvr, PCtx.withOverrides] using h2,
+      by simpa [applyOvr, PCtx.withOverrides] using h3⟩
+
+/-- … and a parent context derived afterwards inherits the composed checker. -/
+theorem parent_inherits_composed (ms : List (List (Bytes × Bytes))) (ctx q : PCtx) (root : Bkt)
+    (h : (applyOvr ctx ms).getParentContext root = .ok q) : q.chk = ms.foldl withFieldOverrides ctx.chk := by
+  rw [(parent_context_inherits _ q root h).1, (overrides_compose_on_context ms ctx).1]
+
+/-- composing is NOT merging the tables into one: with `{a→b}` then `{c→a}` and a checker that
+    selects only `b`, field `c` is selected (`c→a→b`); one merged table `{a→b, c→a}` would check `c`
+    under `a` and refuse it (and with a checker selecting only `a` it would wrongly let `c` through). -/
+theorem overrides_merge_differs :
+    let a : Bytes := [97]; let b : Bytes := [98]; let c : Bytes := [99]
+    effectiveName [[(a, b)], [(c, a)]] c = b ∧ effectiveName [[(a, b), (c, a)]] c = a ∧
+    (mappedChecker (mappedChecker (fun k => k == b) [(a, b)]) [(c, a)]) c = true ∧
+    (mappedChecker (fun k => k == b) [(a, b), (c, a)]) c = false := by
+  decide
+
+/-- non-vacuity: identity and cyclic tables -/
+example : effectiveName [[([97], [98]), ([98], [97])], [([97], [98]), ([98], [97])]] [97] = [97] ∧
+    effectiveName [[([97], [97])], [([98], [97])]] [98] = [97] := by decide
+
 /-- `GetOrCreatePath` touches only the buckets on the path. -/
 theorem getOrCreatePath_touches_only_path (np : List Bytes) (es : Bkt) (t : List Bytes) (h : ¬ t <+: np) :
     nodeAt (getOrCreatePath es np).1 t = nodeAt es t :=
@@ -523,7 +585,7 @@ theorem nested_bucket_own_holder (tb : TB) (ctx : PCtx) (np : List Bytes) (ops :
     provided every operation either is not let through by the checker or concerns an entry apart
     from `t`, and no nested bucket is created on (or above) `t`. -/
 theorem derived_writes_touch_only_selected (gs : List Group) (st : RunState) (t : List Bytes)
-    (hovr : ∀ g ∈ gs, g.ovr = none)
+    (hovr : ∀ g ∈ gs, g.ovr = [])
     (hcreate : ∀ g ∈ gs, g.np ≠ [] → ¬ t <+: g.bucket st.ctx.path st.ctx.parentPath)
     (h : ∀ g ∈ gs, ∀ p ∈ g.ops, Skips st.ctx.chk p.1 p.2 ∨ Apart (g.bucket st.ctx.path st.ctx.parentPath ++ [p.1]) t) :
     nodeAt (runGroups st gs).tb.es t = nodeAt st.tb.es t :=
@@ -536,7 +598,7 @@ theorem derived_writes_touch_only_selected (gs : List Group) (st : RunState) (t 
 theorem child_store_write_keeps_unselected_parent_field (gs : List Group) (st : RunState) (f : Bytes → Bool)
     (cp : List Bytes) (c0 : Bytes) (cr : List Bytes) (j : Bytes)
     (hcp : st.ctx.path = cp) (hcp0 : cp = c0 :: cr) (hpp : st.ctx.parentPath = some []) (hchk : st.ctx.chk = some f)
-    (hplain : ∀ g ∈ gs, g.ovr = none ∧ g.np = [])
+    (hplain : ∀ g ∈ gs, g.ovr = [] ∧ g.np = [])
     (hf : f j = false) (hj : j ≠ c0)
     (hck : ∀ g ∈ gs, ∀ p ∈ g.ops, p.1 = j → p.2.checked = true) :
     look (runGroups st gs).tb.es j = look st.tb.es j := by
@@ -575,7 +637,7 @@ theorem child_store_write_keeps_unselected_parent_field (gs : List Group) (st : 
 theorem child_store_write_keeps_unselected_child_field (gs : List Group) (st : RunState) (f : Bytes → Bool)
     (c0 : Bytes) (cr : List Bytes) (j : Bytes)
     (hcp : st.ctx.path = c0 :: cr) (hpp : st.ctx.parentPath = some []) (hchk : st.ctx.chk = some f)
-    (hplain : ∀ g ∈ gs, g.ovr = none ∧ g.np = [])
+    (hplain : ∀ g ∈ gs, g.ovr = [] ∧ g.np = [])
     (hf : f j = false)
     (hname : ∀ g ∈ gs, g.parent = true → ∀ p ∈ g.ops, p.1 ≠ c0)
     (hck : ∀ g ∈ gs, ∀ p ∈ g.ops, p.1 = j → p.2.checked = true) :
@@ -617,8 +679,8 @@ theorem child_store_write_keeps_unselected_child_field (gs : List Group) (st : R
 example :
     let root : Bkt := [([101], .sub [([116], .val [1, 0])]), ([110], .val [5, 97])]
     let st : RunState := { tb := { es := root }, ctx := { path := [[101]], parentPath := some [], chk := some (fun k => k == [116]) } }
-    let gs : List Group := [{ parent := true, ovr := none, np := [], ops := [([110], .str [98])] },
-                            { parent := false, ovr := none, np := [], ops := [([116], .bool true)] }]
+    let gs : List Group := [{ parent := true, ovr := [], np := [], ops := [([110], .str [98])] },
+                            { parent := false, ovr := [], np := [], ops := [([116], .bool true)] }]
     (runGroups st gs).tb.err = none ∧ bget (runGroups st gs).tb.es [110] = some [5, 97] ∧
       (subAt (runGroups st gs).tb.es [[101]]).map (fun b => bget b [116]) = some (some [1, 1]) := by
   decide
